@@ -18,7 +18,7 @@ Op lines (a case starts with `reset`):
   svccmd i=<idx> c=<text>     ctrl.servicecmd with another command
   stopdone succ=0|1           the INodeApp completes the oldest outstanding StopNode
   tick                        40 s pass
-Observation: `r=<class> pub=<states> stop=<n> sent=<s<i>:<cmd>,...> st=<state>`
+Observation: `r=<class> pub=<states as the provider saw them> upd=<states as the node issued them> stop=<n> sent=<s<i>:<cmd>,...> st=<state>`
 -/
 namespace Cell2v.Driver.C12
 open Cell2v.Driver Cell2v.NodeCtrl
@@ -67,7 +67,7 @@ def showObs (kinds : List Kind) (r : String) (es : List Evt) (s : St) : String :
   let sent := es.filterMap (fun e => match e with
     | .send i c => if visible kinds i then some s!"s{i}:{scmdName c}" else none
     | _ => none)
-  s!"r={r} pub={join "," pubs} stop={stops es} sent={join "," sent} st={s.st.name}"
+  s!"r={r} pub={join "," pubs} upd={join "," pubs} stop={stops es} sent={join "," sent} st={s.st.name}"
 
 def replyOf (es : List Evt) : String :=
   let r : Option Reply := es.findSome? (fun e => match e with | .reply r => some r | _ => none)
@@ -157,10 +157,11 @@ def parseObs (obs : String) : Option (String × Obs) := do
   let ws := words obs
   let r ← kv ws "r"
   let pubs ← (parseList (← kv ws "pub")).mapM parseNS
+  let upd ← (parseList (← kv ws "upd")).mapM parseNS
   let stops ← kvNat ws "stop"
   let sent := parseSent (← kv ws "sent")
   let st ← parseNS (← kv ws "st")
-  pure (r, { reply := parseReply r st, pubs := pubs, stops := stops, sent := sent, st := st })
+  pure (r, { reply := parseReply r st, pubs := pubs, upd := upd, stops := stops, sent := sent, st := st })
 
 def specStep (m : Option Mon) (line : String) : Option Mon × String :=
   match line.splitOn "\t" with
